@@ -512,7 +512,10 @@ def run_check(C, tier, seed, replay=None):
             violations.append(entry)
         k_samples = S.get("n_samples", 5)
         step = max(1, len(results) // k_samples)
-        all_samples += [{"suite": sname, "case": c, "impl": i, "model": m} for c, i, m in results[::step][:k_samples]]
+        def _clip(x, n=700):
+            return x if len(x) <= n else x[:n] + f"...<{len(x) - n} more chars>"
+        all_samples += [{"suite": sname, "case": _clip(c), "impl": _clip(i), "model": _clip(m)}
+                        for c, i, m in results[::step][:k_samples]]
         tot_eval += len(results)
         tot_nt += len(distinct_nt)
         rules.append(f"[{sname}] " + S["rule"])
